@@ -47,6 +47,13 @@ judged by the property restated in harness/props/c12.py, never sent to the model
                                  'later' (.. after it was added) | 'literal' (defaultValueLiteral=..) | 'literal-later'
   ['setdefault', c, name, dk, how]  how 'value': attr.default_value = .. (None for 'none') | 'literal': attr.defaultValueLiteral = ..
 Values read from such attributes travel as value_token(v, intern).
+  ['look', i]                    the VIEWS of instance i and of its class, for every name of the run: name in dir(i),
+                                 in eAllStructuralFeatures(), findEStructuralFeature(name) found, in eAllAttributes(),
+                                 in eAllReferences(), hasattr(type(i), name), name among eAllOperations()   (7 bits per name)
+  ['movefeat', c, name, d, via]  the feature `name` of class c goes to class d (0: nowhere); via 'container'
+                                 (feature.eContainingClass = D / None, the single-valued end) | 'append' (D.eStructuralFeatures.append)
+  ['moveop', c, name, d, via]    the same for an operation (operation.eContainingClass = D / None | D.eOperations.append)
+  ['pkg', c, what]               what 'set' (c.ePackage = a package) | 'add' (package.eClassifiers.append(c)) | 'unset'   (no effect)
 
 Run as a script (`python -P harness/metaedit_io.py`) it is the isolated worker:
 reads one JSON request from stdin, prints one JSON answer."""
@@ -117,7 +124,8 @@ def enc_op(op, intern):
     raise AssertionError(op)
 
 
-ORACLE_ONLY = ('addgen', 'retgen', 'rmgen', 'cleargens', 'movegen', 'annot', 'typar', 'addattr', 'setdefault')
+ORACLE_ONLY = ('addgen', 'retgen', 'rmgen', 'cleargens', 'movegen', 'annot', 'typar', 'addattr', 'setdefault',
+               'look', 'movefeat', 'moveop', 'pkg')
 
 # tkind (name of the pyecore data type) -> (default of the type, a falsy declared default, a truthy one, their literals)
 ATTR_TYPES = {
@@ -396,6 +404,7 @@ class Impl:
         self.annots = {}
         self.typars = {}
         self.insts = []
+        self.names = []
         self.enum = ec.EEnum('LitEnum', literals=['lit_a', 'lit_b'])
         self.sdt = ec.EDataType('StrDT', str, default_value='hello')
 
@@ -540,6 +549,57 @@ class Impl:
                 self.feats[c].append(f)
                 coll = self.classes[c].eStructuralFeatures
                 coll.extend([f]) if via == 'extend' else coll.append(f)
+                return 0, []
+            if k == 'look':
+                x = self.insts[op[1]]
+                C = x.eClass
+                d = dir(x)
+                allf = [f.name for f in C.eAllStructuralFeatures()]
+                attrs = [f.name for f in C.eAllAttributes()]
+                refs = [f.name for f in C.eAllReferences()]
+                allops = [o.normalized_name() for o in C.eAllOperations()]
+                out = []
+                for n in self.names:
+                    out += [1 if n in d else 0, 1 if n in allf else 0, 0 if C.findEStructuralFeature(n) is None else 1,
+                            1 if n in attrs else 0, 1 if n in refs else 0, 1 if hasattr(type(x), n) else 0,
+                            1 if n in allops else 0]
+                return 0, out
+            if k == 'movefeat':
+                _, c, name, d, via = op
+                f = next(x for x in self.feats[c] if x.name == name)
+                self.feats[c].remove(f)
+                if d:
+                    self.feats[d].append(f)
+                else:
+                    self.dead_feats[(c, name)] = f
+                if via == 'container':
+                    f.eContainingClass = self.classes[d] if d else None
+                else:
+                    self.classes[d].eStructuralFeatures.append(f)
+                return 0, []
+            if k == 'moveop':
+                _, c, name, d, via = op
+                o = next(x for x in self.ops[c] if x.name == name)
+                self.ops[c].remove(o)
+                if d:
+                    self.ops[d].append(o)
+                else:
+                    self.dead_ops[(c, name)] = o
+                if via == 'container':
+                    o.eContainingClass = self.classes[d] if d else None
+                else:
+                    self.classes[d].eOperations.append(o)
+                return 0, []
+            if k == 'pkg':
+                _, c, what = op
+                if not hasattr(self, 'package'):
+                    self.package = ec.EPackage('pk', nsURI='http://verif/c12/pk', nsPrefix='pk')
+                if what == 'set':
+                    self.classes[c].ePackage = self.package
+                elif what == 'add':
+                    self.package.eClassifiers.append(self.classes[c])
+                else:
+                    self.classes[c].ePackage = None
                 return 0, []
             if k == 'addgen':
                 _, c, sid, mode = op
@@ -798,6 +858,7 @@ def run_impl(history, names, intern=None):
     intern = intern or Interner()
     before = flag_installed() if 'pyecore.ecore' in sys.modules else False
     im = Impl(intern)
+    im.names = list(names)
     before = flag_installed()
     toks, per_op = [], []
     for op in history:
